@@ -42,28 +42,62 @@ def check(col: Collector, tier: str):
     check_substitution(col, repo, "C11.R1")
     # the replacement list: method object first, then formal->actual in order, complete
     col.floor("C11.R9", 2)
-    rl = [n for n in walk_no_nested(fn) if isinstance(n, (ast.AugAssign,)) and src(n.target) == "repl_list"]
-    ok = len(rl) == 2
-    if ok:
-        first, second = rl
-        pm = parent_map(fn)
-        g1 = [src(t) for t, tr_ in guards(fn, first, pm) if tr_]
-        ok1 = any("replacement_instance_obj is not None" in g for g in g1) and "replacement_instance_obj[0]" in src(first.value) and \
-            "resolve_id(" in src(first.value) and "replacement_instance_obj[1]" in src(first.value) and ".as_cpp()" in src(first.value)
-        from sa.core.paths import enclosing
-        lp = enclosing(fn, second, (ast.For,), pm)
-        ok2 = bool(lp) and isinstance(lp[0].iter, ast.Call) and call_name(lp[0].iter) == "zip" and \
-            [src(a) for a in lp[0].iter.args] == ["cpp_ast_node.args", "call_node.args"] and first.lineno < second.lineno
-        if ok2:
-            a_, d_ = (src(x) for x in lp[0].target.elts)
-            reps = [c for c in ast.walk(lp[0]) if isinstance(c, ast.Call) and call_name(c) == "get_rep" and src(c.args[0]) == d_]
-            ok2 = len(reps) == 1 and src(second.value).replace(" ", "") == f"[({a_},rep.as_cpp())]"
-        col.add("C11.R9", pan.short, "method-object-bound-to-the-receiver", ok1,
-                "the method object's placeholder must be mapped to the C++ of the receiver name resolved through the visitor", pan.loc)
-        col.add("C11.R1", pan.short, "formal-k-mapped-to-translated-actual-k", ok2,
-                "each formal name must be paired with the translated actual argument at the same position (zip(code value args, call args))", pan.loc)
-    else:
-        col.add("C11.R1", pan.short, "replacement-list-construction", False, f"{len(rl)} additions to repl_list found (2 expected)", pan.loc)
+    # every (formal, actual text) pair that enters the replacement list, whatever the construction (literal, +=, comprehension)
+    from sa.core.paths import enclosing
+    from sa.props._tr import resolve_name
+    pm = parent_map(fn)
+    helper_calls = [c for c in walk_no_nested(fn) if isinstance(c, ast.Call) and call_name(c) == "_substitute_arguments"]
+    list_names = {src(c.args[1]) for c in helper_calls if len(c.args) > 1}
+    pairs = []   # (key expr, value expr, iteration source or None, guards)
+
+    def add_pairs(container, node_for_guards):
+        if isinstance(container, (ast.List, ast.Tuple)):
+            for e in container.elts:
+                if isinstance(e, ast.Tuple) and len(e.elts) == 2:
+                    lp = enclosing(fn, node_for_guards, (ast.For,), pm)
+                    pairs.append((e.elts[0], e.elts[1], lp[0] if lp else None, guards(fn, node_for_guards, pm)))
+        elif isinstance(container, ast.ListComp) and isinstance(container.elt, ast.Tuple) and len(container.elt.elts) == 2:
+            pairs.append((container.elt.elts[0], container.elt.elts[1], container.generators[0], guards(fn, node_for_guards, pm)))
+
+    for n_ in walk_no_nested(fn):
+        if isinstance(n_, ast.Assign) and src(n_.targets[0]) in list_names:
+            add_pairs(n_.value, n_)
+        elif isinstance(n_, ast.AugAssign) and src(n_.target) in list_names:
+            add_pairs(n_.value, n_)
+        elif isinstance(n_, ast.Call) and call_name(n_) in ("append",) and src(n_.func.value) in list_names and n_.args:
+            add_pairs(ast.List(elts=[n_.args[0]], ctx=ast.Load()), n_)
+    ok_args = False
+    ok_obj = False
+    for k, v, it, gs in pairs:
+        if it is not None:
+            iter_expr = it.iter
+            tgt = it.target
+            if isinstance(iter_expr, ast.Call) and call_name(iter_expr) == "zip" and [src(a) for a in iter_expr.args] == ["cpp_ast_node.args", "call_node.args"] \
+                    and isinstance(tgt, ast.Tuple) and len(tgt.elts) == 2:
+                formal, actual = src(tgt.elts[0]), src(tgt.elts[1])
+                val = v
+                if isinstance(val, ast.Call) and call_name(val) == "as_cpp":
+                    recv = val.func.value
+                    scope_node = it if isinstance(it, ast.For) else fn
+                    if isinstance(recv, ast.Name):
+                        ds = [st.value for st in ast.walk(scope_node) if isinstance(st, ast.Assign) and src(st.targets[0]) == recv.id]
+                        recv = ds[0] if len(ds) == 1 else recv
+                    if src(k) == formal and isinstance(recv, ast.Call) and call_name(recv) in ("get_rep", "get_rep_value") and src(recv.args[0]) == actual:
+                        ok_args = True
+        else:
+            kk, vv = resolve_name(fn, k), v
+            guarded = any(tr_ and "replacement_instance_obj is not None" in src(t) for t, tr_ in gs)
+            if guarded and src(kk) == "cpp_ast_node.replacement_instance_obj[0]" and isinstance(vv, ast.Call) and call_name(vv) == "as_cpp":
+                inner = vv.func.value
+                if isinstance(inner, ast.Attribute) and inner.attr == "rep" and isinstance(inner.value, ast.Call) and call_name(inner.value) == "resolve_id":
+                    a0 = resolve_name(fn, inner.value.args[0])
+                    ok_obj = src(a0) == "cpp_ast_node.replacement_instance_obj[1]"
+    col.add("C11.R9", pan.short, "method-object-bound-to-the-receiver", ok_obj,
+            "under `replacement_instance_obj is not None` the method object's placeholder (element [0]) must be mapped to the C++ of the receiver "
+            "name (element [1]) resolved through the visitor", pan.loc)
+    col.add("C11.R1", pan.short, "formal-k-mapped-to-translated-actual-k", ok_args,
+            "each formal name must be paired with the translated actual argument at the same position: (formal, get_rep(actual).as_cpp()) over "
+            f"zip(cpp_ast_node.args, call_node.args); pairs found: {[(src(k), src(v)[:30]) for k, v, _, _ in pairs]}", pan.loc)
     bc = repo.function("build_CPPCodeValue")
     ro = [n for n in walk_no_nested(bc.node) if isinstance(n, ast.Assign) and src(n.targets[0]).endswith(".replacement_instance_obj")]
     ok = len(ro) == 1 and src(ro[0].value).replace(" ", "") == "(spec.method_object,call_node.func.value.id)"
